@@ -297,9 +297,10 @@ def env_known(attr, unknown):
 
 
 ENVIRONMENT = R("environment", [
-    F("time", OPT, STR, lambda e: f"{e.time.hours:02d}:{e.time.minutes:02d}:00" if e.time_of_day is not TimeOfDay.UNKNOWN
-      else None),
-    F("timeOfDay", OPT, STR, env_known("time_of_day", TimeOfDay.UNKNOWN)),
+    # time and timeOfDay are written for every environment ("unknown" is a value of timeOfDay in the schema, and both
+    # elements are required by it)
+    F("time", OPT, STR, lambda e: f"{e.time.hours:02d}:{e.time.minutes:02d}:00"),
+    F("timeOfDay", OPT, STR, lambda e: e.time_of_day.value),
     F("weather", OPT, STR, env_known("weather", Weather.UNKNOWN)),
     F("underground", OPT, STR, env_known("underground", Underground.UNKNOWN))])
 LOCATION = R("location", [F("geoNameId", REQ, INT, lambda l: l.geo_name_id), F("gpsLatitude", REQ, NUM, lambda l: l.gps_latitude),
